@@ -789,7 +789,169 @@ class PySide:
 # ------------------------------------------------------------------------------
 # C side
 
-class CSide:
+def _record_name(qt):
+    """`struct X` (qualifiers dropped) -> X; None for anything that is not a plain struct object type"""
+    m = re.fullmatch(r"struct (\w+)", " ".join(w for w in (qt or "").split() if w not in ("const", "volatile")))
+    return m.group(1) if m else None
+
+
+def _node_record(n):
+    t = (n or {}).get("type", {})
+    return _record_name(t.get("desugaredQualType") or t.get("qualType"))
+
+
+def _aggregate(n):
+    """the expression has a struct / union / array-of-struct object type (not a pointer to one)"""
+    t = (n or {}).get("type", {})
+    qt = t.get("desugaredQualType") or t.get("qualType") or ""
+    return "*" not in qt and "(" not in qt and re.search(r"\b(struct|union)\b", qt) is not None
+
+
+def record_leaves(tu, rec, seen=()):
+    """[(member path, integer type)] of the scalar members of struct `rec`, nested structs expanded in declaration order.
+    AnalysisError for members the forward substitution has no scalar reading of (arrays, unions, bit-fields, pointers to
+    be compared member by member are fine: a pointer is a scalar)."""
+    r = tu.records.get(rec)
+    if r is None or rec in seen:
+        raise AnalysisError("struct %s is not declared in the translation unit; unclassifiable" % rec)
+    if r.get("tagUsed") not in (None, "struct"):
+        raise AnalysisError("%s %s is copied / compared member by member; unclassifiable" % (r.get("tagUsed"), rec))
+    out = []
+    for c in kids(r):
+        if kind(c) != "FieldDecl":
+            continue
+        t = c.get("type", {})
+        qt = t.get("desugaredQualType") or t.get("qualType") or ""
+        if c.get("isBitfield") or "[" in qt or not c.get("name"):
+            raise AnalysisError("struct %s: member `%s` of type `%s` (array, bit-field or anonymous member) has no scalar reading; "
+                                "unclassifiable" % (rec, c.get("name"), qt))
+        sub = _record_name(qt)
+        if sub is not None:
+            out += [((c["name"],) + p, ty) for p, ty in record_leaves(tu, sub, seen + (rec,))]
+        elif re.search(r"\b(struct|union)\b", qt) and "*" not in qt:
+            raise AnalysisError("struct %s: member `%s` of type `%s` has no scalar reading; unclassifiable" % (rec, c["name"], qt))
+        else:
+            out.append(((c["name"],), t.get("qualType") or qt))
+    return out
+
+
+class _StructCL(G._CL):
+    """_CL plus struct objects handled member by member: `a = b`, `a = *p`, `a = (struct S){...}`, `a.m = b.m` for struct
+    members, `struct S x = ...` -- every scalar member becomes an entry `a.m.k` of the environment (the text clang's
+    canonical printing gives the member access), so that a later `a.m.k` reads what was stored.  A struct-valued
+    expression in any other position (argument, return value) is outside the vocabulary."""
+
+    def _lvalue(self, n):
+        n = strip(n)
+        # `a.m.k = v`: a chain of `.` member accesses down from a variable / from `p->m` of one of the function's own pointers
+        cur = n
+        while kind(cur) == "MemberExpr" and not cur.get("isArrow") and kind(strip(kids(cur)[0])) == "MemberExpr":
+            cur = strip(kids(cur)[0])
+        if cur is not n and kind(cur) == "MemberExpr" and kind(strip(kids(cur)[0])) == "DeclRefExpr":
+            return ctext(n)
+        return G._CL._lvalue(self, n)
+
+    def _base(self, n):
+        """(text, separator) such that member path p of the struct lvalue n is the environment key text + sep + '.'.join(p)"""
+        n = strip(n)
+        k = kind(n)
+        if k == "DeclRefExpr":
+            return ctext(n), "."
+        if k == "MemberExpr":
+            self._lvalue(n)
+            return ctext(n), "."
+        if k == "UnaryOperator" and n.get("opcode") == "*" and kind(strip(kids(n)[0])) == "DeclRefExpr":
+            p = ctext(strip(kids(n)[0]))
+            if p in self.env:
+                raise AnalysisError("forward substitution (C): `*%s` of a re-pointed pointer is outside the vocabulary" % p)
+            return p, "->"
+        raise AnalysisError("forward substitution (C): struct object `%s` is outside the vocabulary" % ctext(n)[:60])
+
+    def struct_value(self, n, rec):
+        """{member path: term} of a struct-valued expression"""
+        m = strip(n)
+        k = kind(m)
+        leaves = record_leaves(self.tu, rec)
+        if k == "CompoundLiteralExpr" and kids(m):
+            return self.struct_value(kids(m)[0], rec)
+        if k == "ImplicitValueInitExpr":
+            return {p: C(0) for p, _ in leaves}
+        if k == "InitListExpr":
+            fields = [c for c in kids(self.tu.records[rec]) if kind(c) == "FieldDecl"]
+            items = kids(m)
+            if len(items) != len(fields) or m.get("field") is not None:
+                raise AnalysisError("forward substitution (C): initialiser `%s` of struct %s is outside the vocabulary" % (ctext(m)[:60], rec))
+            out = {}
+            for fd, it in zip(fields, items):
+                sub = _record_name(fd.get("type", {}).get("desugaredQualType") or fd.get("type", {}).get("qualType"))
+                if sub is not None:
+                    for p, v in self.struct_value(it, sub).items():
+                        out[(fd["name"],) + p] = v
+                elif kind(it) == "ImplicitValueInitExpr":
+                    out[(fd["name"],)] = C(0)
+                else:
+                    out[(fd["name"],)] = self.lower(it)
+            return out
+        if k == "ConditionalOperator":
+            c = self.lower(kids(m)[0])
+            a, b = self.struct_value(kids(m)[1], rec), self.struct_value(kids(m)[2], rec)
+            return {p: G.ite_(c, a[p], b[p]) for p, _ in leaves}
+        if k == "BinaryOperator" and m.get("opcode") == "=":
+            self.lower(m)
+            return self.struct_value(kids(m)[0], rec)
+        text, sep = self._base(m)
+        return {p: self.env.get(text + sep + ".".join(p), V(text + sep + ".".join(p))) for p, _ in leaves}
+
+    def store_struct(self, lhs, vals):
+        text, sep = self._base(lhs)
+        for p in sorted(vals):
+            key = text + sep + ".".join(p)
+            self.env[key] = vals[p]
+            self.sym.stores.append((tuple(self.sym.path), key, vals[p]))
+
+    def lower(self, n):
+        m = strip(n)
+        if _aggregate(m) and kind(m) != "CallExpr":
+            rec = _node_record(m)
+            if rec is None:
+                raise AnalysisError("forward substitution (C): `%s` of type `%s` is outside the vocabulary" % (
+                    ctext(m)[:60], m.get("type", {}).get("qualType", "?")))
+            if kind(m) == "BinaryOperator" and m.get("opcode") == "=":
+                vals = self.struct_value(kids(m)[1], rec)
+                self.store_struct(kids(m)[0], vals)
+                return V(ctext(kids(m)[0]))
+            # the initialiser of a struct variable (block() binds the variable's name; the members are bound here)
+            cur, par = n, self.tu.parent.get(id(n))
+            while par is not None and kind(par) in SKIP:
+                cur, par = par, self.tu.parent.get(id(par))
+            if par is not None and kind(par) == "VarDecl":
+                name = par.get("name")
+                for p, v in sorted(self.struct_value(m, rec).items()):
+                    self.env[name + "." + ".".join(p)] = v
+                return V(name)
+            raise AnalysisError("forward substitution (C): struct value `%s` is used other than in a member-wise copy; outside the "
+                                "vocabulary" % ctext(m)[:60])
+        return G._CL.lower(self, n)
+
+
+class _StructSym(G.CSym):
+    """CSym with struct objects handled member by member (_StructCL); remembers which functions of the file were substituted"""
+
+    def __init__(self, tu, opaque=()):
+        G.CSym.__init__(self, tu, opaque)
+        self.substituted = set()
+
+    def lower(self, n, env):
+        return G.renorm(_StructCL(self, env).lower(n))
+
+    def call(self, m, lw):
+        self.substituted.add(ctext(kids(m)[0]))
+        return G.CSym.call(self, m, lw)
+
+
+class CGen:
+    """the firmware's generator forward-substituted as it is written: the returned term and, when the function keeps
+    objects of static storage between calls, what it leaves in them (terms over the inputs and the previous contents)"""
     HOP = "rfch_hop_seq_gen"
 
     def __init__(self, L):
@@ -802,11 +964,131 @@ class CSide:
         if len(ps) != 5:
             raise AnalysisError("%s(): expected (t, hsn, maio, n, arfcn_tbl), found %r" % (self.HOP, ps))
         self.params = ps
-        t, hsn, maio, n, tbl = ps
-        self.sym = sym = G.CSym(tu)
-        self.raw = sym.result(sym.run(f))
+        t = ps[0]
+        self.sym = sym = _StructSym(tu)
+        self.out = sym.run(f)
+        self.raw = sym.result(self.out)
         if sym.effects:
             raise AnalysisError("%s(): calls %s(); unclassifiable" % (self.HOP, sym.effects[0][1]))
+        self.time = {k: V("%s->%s" % (t, k)) for k in ("fn", "t1", "t2", "t3")}
+        self.inputs = set(self.time.values()) | {V(x) for x in ps[1:]}
+        self.stored = set()
+        for _c, o in G.leaves(self.out):
+            env = o[2] if o[0] == "ret" else o[1] if o[0] == "fall" else {}
+            self.stored |= {k for k, v in env.items() if v != V(k)}
+        self._state()
+
+    @staticmethod
+    def root(name):
+        return re.split(r"->|\.|\[", name, 1)[0]
+
+    def allowed_functions(self):
+        """the generator and the functions of the file substituted into it"""
+        return {self.HOP} | {n for n in self.sym.substituted if n in self.tu.functions and
+                             any(kind(c) == "CompoundStmt" for c in kids(self.tu.functions[n]))}
+
+    def _static_decl(self, name, what):
+        """the declaration of the object of static storage duration `name` the generator keeps between calls"""
+        tu = self.tu
+        local = [d for fn in sorted(self.allowed_functions()) for d in walk(tu.body(tu.functions[fn]))
+                 if kind(d) == "VarDecl" and d.get("name") == name]
+        if len(local) > 1 or (local and local[0].get("storageClass") != "static"):
+            raise AnalysisError("%s; `%s` is a local variable read before it is assigned; unclassifiable" % (what, name))
+        d = local[0] if local else tu.vars.get(name)
+        if d is None:
+            raise AnalysisError("%s; `%s` is not declared in the translation unit; unclassifiable" % (what, name))
+        if d.get("storageClass") != "static":
+            raise AnalysisError("%s; `%s` is not static: other translation units may write it; unclassifiable" % (what, name))
+        qt = d.get("type", {}).get("qualType", "")
+        if "volatile" in qt.split():
+            raise AnalysisError("%s; `%s` is volatile; unclassifiable" % (what, name))
+        return d
+
+    def _state(self):
+        """state: what the returned term reads besides the parameters and file-level arrays the function only reads (tables).
+        Per scalar member: its integer type and the constant the object holds before the first call."""
+        tu = self.tu
+        params = set(self.params)
+        written = {self.root(k) for k in self.stored}
+
+        def is_table(name):
+            d = tu.vars.get(name)
+            return d is not None and name not in params and name not in written and \
+                array_extent(d.get("type", {}).get("qualType")) is not None
+        reads = sorted({x[1] for x in G.subterms(self.raw) if x[0] == "v" and self.root(x[1]) not in params and not is_table(x[1])})
+        self.state, self.state_types, self.state_init, self.state_decls = [], {}, {}, {}
+        self.state_error = None
+        if not reads:
+            return
+        what = "%s() returns a value that depends on %s, kept between calls" % (self.HOP, ", ".join(reads[:4]))
+        try:
+            for r in sorted({self.root(x) for x in reads}):
+                d = self._static_decl(r, what)
+                self.state_decls[r] = d
+                rec = _node_record(d)
+                init = [c for c in kids(d) if kind(c) not in ("", None) and not kind(c).endswith("Attr")]
+                if rec is not None:
+                    leaves = [(r + "." + ".".join(p), ty) for p, ty in record_leaves(tu, rec)]
+                    vals = _StructCL(self.sym, {}).struct_value(init[-1], rec) if init else None
+                    inits = [(r + "." + ".".join(p), vals[p] if vals is not None else C(0)) for p, _ in record_leaves(tu, rec)]
+                elif _aggregate(d) or "[" in d.get("type", {}).get("qualType", ""):
+                    raise AnalysisError("%s; `%s` of type `%s` has no scalar reading; unclassifiable" % (
+                        what, r, d.get("type", {}).get("qualType", "?")))
+                else:
+                    leaves = [(r, d.get("type", {}).get("qualType", ""))]
+                    v = tu.fold(init[-1]) if init else 0
+                    inits = [(r, C(v) if v is not None else None)]
+                for (k, ty), (_, v) in zip(leaves, inits):
+                    if v is None or v[0] != "c":
+                        raise AnalysisError("%s; `%s` is not initialised with a constant; unclassifiable" % (what, k))
+                    self.state.append(k)
+                    self.state_types[k] = ty
+                    self.state_init[k] = v[1]
+            odd = [x for x in reads if x not in self.state_types]
+            if odd:
+                raise AnalysisError("%s; `%s` is not a scalar member of an object of static storage; unclassifiable" % (what, odd[0]))
+        except AnalysisError as e:
+            self.state_error = str(e)
+            self.state = reads
+
+    def final(self, key):
+        return self.sym.final(self.out, key)
+
+
+def _flatten_nested(t):
+    """(X if b else Y) if a else Y  ==  X if (a and b) else Y: nested tests of one decision are one condition"""
+    def leaf(x):
+        if x[0] != "ite":
+            return None
+        c, a, b = x[1], G.renorm(x[2], leaf), G.renorm(x[3], leaf)
+        if a[0] == "ite" and a[3] == b:
+            return G.ite_(("and", c, a[1]), a[2], b)
+        if a[0] == "ite" and a[2] == b:
+            return G.ite_(("and", c, ("not", a[1])), a[3], b)
+        if b[0] == "ite" and b[3] == a:
+            return G.ite_(("and", ("not", c), b[1]), b[2], a)
+        if b[0] == "ite" and b[2] == a:
+            return G.ite_(("and", ("not", c), ("not", b[1])), b[3], a)
+        return G.ite_(c, a, b)
+    return G.renorm(t, leaf)
+
+
+def _negation(c):
+    """the condition `not c` with the negation pushed to the atoms (De Morgan)"""
+    if c[0] == "not":
+        return c[1]
+    if c[0] in ("and", "or"):
+        return G.truth(({"and": "or", "or": "and"}[c[0]],) + tuple(_negation(x) for x in c[1:]))
+    return ("not", c)
+
+
+class CSide(CGen):
+    def __init__(self, L, gen):
+        self.__dict__.update(gen.__dict__)
+        self.L = L
+        tu, f, sym, ps = self.tu, self.f, self.sym, self.params
+        t, hsn, maio, n, tbl = ps
+        self.raw = self._unmemo()
         self.fold = CFold(tu, sym)
         tabs = sorted({x[1][1] for x in G.subterms(self.raw) if x[0] == "idx" and x[1][0] == "v" and x[1][1] in tu.vars
                        and x[1][1] not in ps and array_extent(tu.vars[x[1][1]].get("type", {}).get("qualType")) is not None})
@@ -821,8 +1103,261 @@ class CSide:
         # the helper computing the mask (for reporting): the one value-only callee of the generator, if any
         callees = [name for name, fd in tu.functions.items() if name != self.HOP and
                    any(kind(c) == "CompoundStmt" for c in kids(fd)) and calls_to(tu.body(f), name)]
+        if len(callees) > 1:
+            callees = [c for c in callees if sym.value_only(tu.functions[c])]
         self.mask_fn = callees[0] if len(callees) == 1 else self.HOP
         L.fn(F_RFCH, self.mask_fn)
+
+    C_BOX = {"fn": (0, G.HYPERFRAME - 1), "t1": (0, 2047), "t2": (0, 25), "t3": (0, 50)}
+
+    def _box(self):
+        t, hsn, maio, n, tbl = self.params
+        box = {self.time[k]: iv for k, iv in self.C_BOX.items()}
+        box.update({V(hsn): (0, 63), V(maio): (0, 63), V(n): (1, 64)})
+        return box
+
+    def _writers(self, what):
+        """who-writes scan of the objects kept between calls: every reference in the translation unit, classified by its AST
+        context.  Outside the generator and the functions substituted into it only reads are admitted; inside, reads and
+        the stores the forward substitution modelled (anything else -- an address taken, the object handed to a function --
+        is unclassifiable).  A substituted function that stores must not be callable from anywhere else."""
+        tu = self.tu
+        allowed = self.allowed_functions()
+        ids = {d.get("id"): r for r, d in self.state_decls.items()}
+        storing, outside = set(), []
+        for fname, fd in sorted(tu.functions.items()):
+            if not any(kind(c) == "CompoundStmt" for c in kids(fd)):
+                continue
+            for x in walk(tu.body(fd)):
+                if kind(x) != "DeclRefExpr" or x.get("referencedDecl", {}).get("id") not in ids:
+                    continue
+                name = ids[x["referencedDecl"]["id"]]
+                cur, par = x, tu.parent.get(id(x))
+                unevaluated = False
+                q = par
+                while q is not None and kind(q) != "FunctionDecl":
+                    if kind(q) == "UnaryExprOrTypeTraitExpr":
+                        unevaluated = True
+                    q = tu.parent.get(id(q))
+                if unevaluated:
+                    continue
+                while par is not None and (kind(par) == "ParenExpr" or (kind(par) == "MemberExpr" and not par.get("isArrow"))):
+                    cur, par = par, tu.parent.get(id(par))
+                k = kind(par)
+                if k == "ImplicitCastExpr" and par.get("castKind") == "LValueToRValue":
+                    continue                                        # a read
+                store = (k == "BinaryOperator" and par.get("opcode") == "=" and kids(par)[0] is cur) or \
+                    (k == "CompoundAssignOperator" and kids(par)[0] is cur) or \
+                    (k == "UnaryOperator" and par.get("opcode") in ("++", "--"))
+                if store and fname in allowed:
+                    storing.add(fname)
+                    continue
+                if store and k == "BinaryOperator":
+                    outside.append((fname, cur, kids(par)[1]))      # judged by the caller: admitted when it cannot create a hit
+                    continue
+                if store:
+                    raise AnalysisError("%s; `%s` is also written in %s(); unclassifiable" % (what, name, fname))
+                raise AnalysisError("%s; `%s` is used as operand of %s%s in %s() (address taken / handed on); unclassifiable" % (
+                    what, name, k, " " + par.get("opcode") if par is not None and par.get("opcode") else "", fname))
+        for w in sorted(storing - {self.HOP}):
+            wd = tu.functions[w]
+            if wd.get("storageClass") != "static":
+                raise AnalysisError("%s; %s(), which stores it, is not static and may be called from elsewhere; unclassifiable" % (what, w))
+            for fname, fd in sorted(tu.functions.items()):
+                if not any(kind(c) == "CompoundStmt" for c in kids(fd)):
+                    continue
+                for x in walk(tu.body(fd)):
+                    if kind(x) == "DeclRefExpr" and x.get("referencedDecl", {}).get("name") == w and \
+                            x.get("referencedDecl", {}).get("kind") == "FunctionDecl" and fname not in allowed:
+                        raise AnalysisError("%s; %s(), which stores it, is also used in %s(); unclassifiable" % (what, w, fname))
+        return sorted(storing), outside
+
+    def _unmemo(self):
+        """A generator that remembers its last result in objects of static storage duration (the counterpart of
+        PySide._unmemo).  The returned term is then a function of that state and says nothing by itself.  It is normalised
+        to the remembered computation only when this is PROVEN for every state the objects can be in -- an inductive
+        invariant over the calls of the generator, checked on the forward-substituted terms, not on statement shapes:
+
+            returned term   HIT(V..) if H else MISS          H: conjunction of `K_i == KEY_i` (K_i a member of the state, KEY_i
+                                                             free of it), tests of one member against constants (`valid`) and
+                                                             conditions on the inputs alone;  MISS free of the state
+            invariant       H cannot hold, or V_j == CALC_j evaluated for the inputs the K_i were stored from
+            (1) cold start: with the static initialiser (zero without one) H is false for every input of the domain box
+            (2) preservation, read from the final environment of the forward substitution: when H holds nothing the
+                invariant speaks of is changed; when it does not, every K_i is left equal to KEY_i and every V_j to a term CALC_j
+                free of the state, each within the range of the member's integer type on the domain box (no truncation);
+                HIT with CALC_j / KEY_i in the place of V_j / K_i is the term MISS
+            (3) nobody else stores the objects: static storage, who-writes scan of the translation unit by AST context
+            (4) the key is complete: every input CALC_j reads is a KEY_i, a table the file only reads, or a component of the
+                GSM time that the compared components determine (FN <-> T1, T2, T3: one frame number, C19)
+
+        Under (1)-(4) a hit returns HIT(CALC of the current inputs) == MISS for every call sequence; the formula rules then
+        judge MISS.  Each fact is an obligation (C07.R10).  Anything that does not have this form, or where a fact cannot be
+        established, is ANALYSIS-ERROR: a stale memo is a matter for the call sequences of r10_c_sequences, which fold the
+        function with the state carried from call to call and report a concrete pair of calls."""
+        self.memo = None
+        raw = self.raw
+        if not self.state:
+            return raw
+        if self.state_error:
+            raise AnalysisError(self.state_error)
+        S = {V(k) for k in self.state}
+        what = "%s() returns a value that depends on %s, kept between calls" % (
+            self.HOP, ", ".join(sorted(x[1] for x in variables(raw) if x in S)[:4]))
+
+        def has_state(t):
+            return any(x in S for x in G.subterms(t))
+        raw = _flatten_nested(raw)
+        finals = {k: _flatten_nested(self.final(k)) for k in self.state if k in self.stored}
+        conds = []
+        for term in [raw] + [finals[k] for k in sorted(finals)]:
+            for x in G.subterms(term):
+                if x[0] == "ite" and has_state(x[1]) and x[1] not in conds:
+                    conds.append(x[1])
+        if len(conds) != 1:
+            raise AnalysisError("%s, not as one remembered result `.. V .. if K == key else computation` (%d conditions on the "
+                                "state); unclassifiable" % (what, len(conds)))
+        cond = conds[0]
+        pol = cond[0] != "or"                          # `if (!valid || K != key) compute` is the same decision, negated
+        H = cond if pol else _negation(cond)
+        atoms = list(H[1:]) if H[0] == "and" else [H]
+        keys, flags, guards = [], [], []
+        for a in atoms:
+            if not has_state(a):
+                guards.append(a)
+                continue
+            vs = [x for x in variables(a) if x in S]
+            if a[0] == "cmp" and a[1] == "==" and len(vs) == 1 and vs[0] in a[2:] and \
+                    not has_state([y for y in a[2:] if y != vs[0]][0]) and [y for y in a[2:] if y != vs[0]][0][0] != "c":
+                keys.append((vs[0], [y for y in a[2:] if y != vs[0]][0]))
+            elif len(vs) == 1 and variables(a) == {vs[0]}:
+                flags.append((vs[0], a))
+            else:
+                raise AnalysisError("%s: the remembered result is used under `%s`, which is not a comparison of one remembered "
+                                    "value with the inputs; unclassifiable" % (what, G.show(a)[:100]))
+        HIT, MISS = G.assume(raw, cond, pol), G.assume(raw, cond, not pol)
+        if has_state(MISS):
+            raise AnalysisError("%s, also when `%s` does not hold; unclassifiable" % (what, G.show(H)[:120]))
+        Ks = [k for k, _ in keys]
+        if len(set(Ks)) != len(Ks):
+            raise AnalysisError("%s: `%s` is compared twice; unclassifiable" % (what, sorted(k[1] for k in Ks if Ks.count(k) > 1)[0]))
+        Vs = sorted((x for x in variables(HIT) if x in S), key=repr)
+        if not Vs or any(v in Ks or v in [f for f, _ in flags] for v in Vs):
+            raise AnalysisError("%s: on a hit `%s` is returned; not a function of remembered values only; unclassifiable" % (
+                what, G.show(HIT)[:120]))
+        box = self._box()
+        line = self.tu.line(self.f)
+        # (1) cold start
+        init = {V(k): C(v) for k, v in self.state_init.items()}
+        cold = G.decide_cond(G.renorm(H, lambda x: init.get(x)), box)
+        if cold is not False:
+            raise AnalysisError("%s: with the initial contents (%s) the test `%s` is not false for every input of the domain; a "
+                                "first call that cannot hit is not established; unclassifiable" % (
+                                    what, ", ".join("%s = %d" % (k[1], init[k][1]) for k in sorted(set(Ks) | {f for f, _ in flags})[:8]),
+                                    G.show(H)[:160]))
+        # (2) preservation
+        def fits(k, term):
+            ty = _c_int_type(self.state_types[k[1]])
+            if ty is None:
+                raise AnalysisError("%s: `%s` of type `%s` is not an integer of known width; unclassifiable" % (
+                    what, k[1], self.state_types[k[1]]))
+            lo, hi = (-(1 << (ty[0] - 1)), (1 << (ty[0] - 1)) - 1) if ty[1] else (0, (1 << ty[0]) - 1)
+            iv = G.interval(term, box)
+            if not (iv[0] >= lo and iv[1] <= hi):
+                raise AnalysisError("%s: `%s` (%s) is stored from `%s`, which is in %s on the domain and may be truncated; "
+                                    "unclassifiable" % (what, k[1], self.state_types[k[1]], G.show(term)[:80], G.ivtxt(iv)))
+        calc = {}
+        for k in list(Ks) + Vs + [f for f, _ in flags]:
+            fin = finals.get(k[1], k)
+            on_hit, on_miss = G.assume(fin, cond, pol), G.assume(fin, cond, not pol)
+            key_of = dict(keys).get(k)
+            if on_hit != k and not (key_of is not None and on_hit == key_of):
+                raise AnalysisError("%s: a hit leaves `%s` = %s; unclassifiable" % (what, k[1], G.show(on_hit)[:100]))
+            if k in Ks:
+                if on_miss != key_of:
+                    raise AnalysisError("%s: `%s` is compared with `%s` but a miss leaves it = %s; the key is not the one compared; "
+                                        "unclassifiable" % (what, k[1], G.show(key_of)[:60], G.show(on_miss)[:100]))
+                fits(k, key_of)
+            elif k in Vs:
+                if has_state(on_miss) or k[1] not in finals:
+                    raise AnalysisError("%s: a miss leaves `%s` = %s, not a value computed from the inputs; unclassifiable" % (
+                        what, k[1], G.show(on_miss)[:100]))
+                fits(k, on_miss)
+                calc[k] = on_miss
+            elif has_state(on_miss) and on_miss != k:
+                raise AnalysisError("%s: a miss leaves `%s` = %s; unclassifiable" % (what, k[1], G.show(on_miss)[:100]))
+        sub = dict(keys)
+        sub.update(calc)
+        hit = G.renorm(HIT, lambda x: sub.get(x))
+        if hit != MISS:
+            raise AnalysisError("%s: on a hit `%s` is returned, on a miss `%s` with `%s` remembered; not the same function of the "
+                                "remembered value; unclassifiable" % (what, G.show(HIT)[:120], G.show(MISS)[:120],
+                                                                       "; ".join(G.show(c)[:80] for c in calc.values())))
+        # (3) who writes
+        storing, outside = self._writers(what)
+        resets = []
+        for fname, lhs, rhs in outside:
+            # a store from elsewhere (an invalidation when the channel is reconfigured ...) keeps the invariant when it stores
+            # constants with which the test cannot hold, whatever the other members contain
+            rec = _node_record(strip(lhs))
+            try:
+                if rec is not None:
+                    vals = {ctext(lhs) + "." + ".".join(pth): v
+                            for pth, v in _StructCL(self.sym, {}).struct_value(rhs, rec).items()}
+                else:
+                    v = self.tu.fold(rhs)
+                    vals = {ctext(lhs): C(v) if v is not None else None}
+            except AnalysisError:
+                vals = {ctext(lhs): None}
+            if any(v is None or v[0] != "c" or V(k) not in S for k, v in vals.items()) or \
+                    G.decide_cond(G.renorm(H, lambda x: vals.get(x[1]) if x[0] == "v" else None), box) is not False:
+                raise AnalysisError("%s; `%s` is also written in %s() (`%s = %s`), which is not a store of constants that rules a hit "
+                                    "out; unclassifiable" % (what, ctext(lhs)[:40], fname, ctext(lhs)[:40], ctext(rhs)[:40]))
+            resets.append("%s(): %s = %s" % (fname, ctext(lhs)[:40], ctext(rhs)[:40]))
+        # (4) completeness of the key
+        comps = [kt for _, kt in keys]
+        hole = V("<key component>")
+        time = self.time
+        rest = set()
+        for k, c in calc.items():
+            for x in G.subterms(c):
+                if x[0] == "idx" and not (x[1][0] == "v" and x[1][1] in self.tu.vars and x[1] not in self.inputs):
+                    raise AnalysisError("%s: the remembered computation `%s` reads the contents of `%s`, which a key cannot "
+                                        "cover; unclassifiable" % (what, G.show(c)[:80], G.show(x[1])[:40]))
+            rest |= {v for v in variables(G.renorm(c, lambda x: hole if x in comps else None)) if v != hole and v in self.inputs}
+        determined = []
+        have = {n for n, v in time.items() if v in comps}
+        if "fn" in have or {"t1", "t2", "t3"} <= have:
+            determined = sorted((v for v in rest if v in time.values()), key=repr)
+            rest -= set(determined)
+        if rest:
+            raise AnalysisError("%s: the remembered computation reads %s, which %s not part of the key `%s`; unclassifiable "
+                                "(the call sequences of C07.R10 decide whether a stale result is observable)" % (
+                                    what, ", ".join("`%s`" % v[1] for v in sorted(rest, key=repr)), "is" if len(rest) == 1 else "are",
+                                    ", ".join(G.show(c)[:30] for c in comps)))
+        L = self.L
+        memo = "remembered result of %s() (`%s` used when `%s`)" % (self.HOP, ", ".join(v[1] for v in Vs), G.show(H)[:200])
+        L.ob("C07.R10", F_RFCH, self.HOP, "%s: the initial contents cannot be hit" % memo,
+             "the test is false for every input of the domain", "false with %s" % ", ".join(
+                 "%s = %d" % (k[1], init[k][1]) for k in sorted(set(Ks) | {f for f, _ in flags})), True, line)
+        L.ob("C07.R10", F_RFCH, self.HOP, "%s: a miss leaves every compared member equal to what it is compared with and the value "
+             "computed, without truncation; a hit changes nothing" % memo,
+             "K' = key, V' = computation; hit arm with the computation == miss arm",
+             "%s; %s" % (", ".join("%s' = %s" % (k[1], G.show(kt)[:40]) for k, kt in keys),
+                         ", ".join("%s' = %s" % (k[1], G.show(c)[:120]) for k, c in sorted(calc.items()))), True, line)
+        L.ob("C07.R10", F_RFCH, self.HOP, "%s: only the generator (and the helpers substituted into it) store %s, any other "
+             "function only constants with which the test cannot hold" % (memo, ", ".join(sorted(self.state_decls))),
+             [], sorted(set(resets)), True, line)
+        L.ob("C07.R10", F_RFCH, self.HOP, "%s: every input of the remembered computation is part of the key" % memo,
+             "key components / tables that are only read",
+             "key %s%s" % (", ".join(G.show(c)[:30] for c in comps),
+                           "; %s determined by the compared components of the same GSM time (one frame number)" % ", ".join(
+                               v[1] for v in determined) if determined else ""), True, line)
+        L.floor("C07.R10", "facts established for the remembered result of %s()" % self.HOP, 4, 4)
+        self.memo = {"key": [G.show(c)[:60] for c in comps], "value": [v[1] for v in Vs], "flags": [G.show(a)[:60] for _, a in flags],
+                     "stored_by": storing, "determined_by_the_frame_number": [v[1] for v in determined]}
+        L.extra["generator_memo"] = self.memo
+        return MISS
 
 
 # ------------------------------------------------------------------------------
@@ -2992,6 +3527,175 @@ def r7_witnesses(L, repo, spec):
         L.floor("C07.R7", "channel-selection witnesses folded (N, HSN, MAIO, FN)", folded, 5000)
 
 
+# ------------------------------------------------------------------------------
+# R10 (firmware): a generator that keeps state between calls, folded for call sequences
+
+SEQ_DELTAS = (("the next frame number", 1), ("a frame number with the same T2 (FN + 26)", 26),
+              ("a frame number with the same T3 (FN + 51)", 51), ("a frame number with the same T2 and T3 (FN + 1326)", 1326),
+              ("a frame number with the same T1 mod 64, T2 and T3 (FN + 64 * 1326)", 64 * 1326))
+
+
+def _seq_ma(n, k=0):
+    return tuple(1000 + 2000 * k + 3 * i + k * (i % 3) for i in range(n))
+
+
+def sequence_pairs(rntable):
+    """(what is varied, call a, call b) with a call = (HSN, MAIO, N, FN): b differs from a in one argument (for the frame
+    number: by a step that keeps some of T1 mod 64, T2, T3) and TS 45.002 6.2.3 selects another MAI for it"""
+    seen = set()
+    for hsn in (0, 1, 42, 63):
+        for n in (1, 2, 3, 5, 8, 17, 64):
+            for maio in sorted({0, 1, n - 1, 63}):
+                for fn in (0, 7, 1325, 51 * 26 * 3 + 60, FN_T1_64, 1326 * 700 + 611, FN_LAST - 90000):
+                    a = (hsn, maio, n, fn)
+                    ra = ref_select(rntable, *a)[0]
+                    cands = [("another HSN", (h, maio, n, fn)) for h in (hsn + 1, hsn - 1, 0 if hsn else 1, 63 - hsn) if 0 <= h <= 63]
+                    cands += [("another MAIO", (hsn, m % 64, n, fn)) for m in (maio + 1, maio + n // 2 + 1, maio + 63)]
+                    cands += [("another N", (hsn, maio, m, fn)) for m in (n + 1, n - 1, n + 2, 64 - n) if 1 <= m <= 64]
+                    for what, d in SEQ_DELTAS:
+                        cands += [(what, (hsn, maio, n, (fn + k * d) % G.HYPERFRAME)) for k in (1, 2, 3, 5)]
+                    done = set()
+                    for what, b in cands:
+                        if what in done or b == a or (what, a, b) in seen:
+                            continue
+                        if ref_select(rntable, *b)[0] != ra:
+                            done.add(what)
+                            seen.add((what, a, b))
+                            yield what, a, b
+
+
+def r10_c_sequences(L, gen, spec):
+    """C07.R10, firmware, refutation only: when rfch_hop_seq_gen() keeps objects of static storage between calls, the value
+    it returns and the contents it leaves (forward-substituted terms over the inputs and the previous contents) are folded
+    by the checker's own arithmetic for call sequences that start from the static initialiser: a, a, b, b, a for pairs of
+    calls that differ in one argument of the property's domain and for which TS 45.002 6.2.3 selects different channels
+    (another HSN / MAIO / N; frame numbers that keep T2, T3 or T1 mod 64), the same call with another Mobile Allocation of
+    the same length and with a NULL table.  Every member is stored with the conversion to its integer type.  A call that
+    returns another channel than MA[MAI] for its own inputs -- a stale remembered result: a key that omits an input, a value
+    remembered before it is computed -- is a counterexample inside the property's domain, reported with the pair of calls."""
+    if not gen.state:
+        return
+    rntable = spec["RNTABLE"]
+    tu = gen.tu
+    note = L.extra.setdefault("generator_call_sequences", {})
+    if gen.state_error:
+        note["status"] = "skipped: %s" % gen.state_error[:200]
+        return
+    types = {}
+    for k in gen.state:
+        ty = _c_int_type(gen.state_types[k])
+        if ty is None:
+            note["status"] = "skipped: `%s` of type `%s` is not an integer of known width" % (k, gen.state_types[k])
+            return
+        types[k] = ty
+    t, hsn, maio, n, tbl = gen.params
+    names = {gen.time["fn"]: "FN", gen.time["t1"]: "T1", gen.time["t2"]: "T2", gen.time["t3"]: "T3",
+             V(hsn): "HSN", V(maio): "MAIO", V(n): "N", V(tbl): "MA", V("%s->tc" % t): "TC"}
+    params = ["FN", "T1", "T2", "T3", "HSN", "MAIO", "N", "MA", "TC"]
+    for i, k in enumerate(gen.state):
+        names[V(k)] = "S%d" % i
+        params.append("S%d" % i)
+    finals = ("tuple",) + tuple(gen.final(k) for k in gen.state)
+    tables = []
+    for x in sorted(variables(gen.raw) | variables(finals), key=repr):
+        if x in names:
+            continue
+        d = tu.vars.get(x[1])
+        init = tu.init_value(kids(d)[-1]) if d is not None and kids(d) else None
+        if not isinstance(init, list) or not all(isinstance(v, int) for v in init):
+            note["status"] = "skipped: `%s` is neither an input, a remembered member nor a table of integer constants" % x[1]
+            return
+        names[x] = "TAB%d" % len(tables)
+        params.append("TAB%d" % len(tables))
+        tables.append(tuple(init))
+    try:
+        rf = G.term_fn(gen.raw, names, params)
+        sf = G.term_fn(finals, names, params)
+    except AnalysisError as e:
+        note["status"] = "skipped, outside the checker's arithmetic: %s" % str(e)[:160]
+        return
+    cold = tuple(_c_convert(gen.state_init[k], *types[k]) for k in gen.state)
+
+    class Skip(Exception):
+        pass
+
+    def call(state, c, ma):
+        h, m, nn, fn = c
+        args = (fn, fn // 1326, fn % 26, fn % 51, h, m, nn, ma, (fn // 51) % 8) + tuple(state) + tuple(tables)
+        try:
+            got = rf(*args)
+        except G._Outside as e:
+            got = str(e)
+        except (ArithmeticError, TypeError, ValueError) as e:
+            raise Skip("%s for %s" % (e, ctxt(c)))
+        try:
+            new = sf(*args)
+        except (G._Outside, ArithmeticError, TypeError, ValueError) as e:
+            raise Skip("%s for %s" % (e, ctxt(c)))
+        if any(isinstance(v, bool) or not isinstance(v, int) for v in new):
+            raise Skip("a remembered member does not fold to an integer for %s" % ctxt(c))
+        return got, tuple(_c_convert(v, *types[k]) for v, k in zip(new, gen.state))
+
+    def ctxt(c):
+        return "%s(HSN = %d, MAIO = %d, N = %d, FN = %d)" % (gen.HOP, c[0], c[1], c[2], c[3])
+
+    def sel(got, ma):
+        return "MA[%d]" % ma.index(got) if isinstance(ma, tuple) and got in ma else repr(got)[:50]
+    results = {}         # what -> [calls, [(text)]]
+    total = 0
+    try:
+        for what, a, b in sequence_pairs(rntable):
+            rec = results.setdefault(what, [0, []])
+            state, prev = cold, None
+            for c in (a, a, b, b, a):
+                ma = _seq_ma(c[2])
+                got, state = call(state, c, ma)
+                mai = ref_select(rntable, *c)[0]
+                rec[0] += 1
+                if got != ma[mai] and len(rec[1]) < 50:
+                    rec[1].append("%s%s: MA[%d] expected, %s selected" % (
+                        ctxt(c), " after %s" % ctxt(prev) if prev else " as the first call", mai, sel(got, ma)))
+                prev = c
+        what = "another Mobile Allocation of the same length / a NULL table"
+        rec = results.setdefault(what, [0, []])
+        for hsn_ in (0, 1, 63):
+            for nn in (1, 2, 5, 8, 64):
+                for fn in (0, 7, 1326 * 700 + 611, FN_LAST):
+                    c = (hsn_, 3 % nn if nn > 1 else 0, nn, fn)
+                    mai = ref_select(rntable, *c)[0]
+                    state, prev = cold, None
+                    for ma in (_seq_ma(nn), _seq_ma(nn, 1), 0, _seq_ma(nn), _seq_ma(nn, 2)):
+                        got, state = call(state, c, ma)
+                        want = ma[mai] if ma != 0 else mai
+                        rec[0] += 1
+                        if got != want and len(rec[1]) < 50:
+                            rec[1].append("%s with %s after the same call with %s: %s expected, %s selected" % (
+                                ctxt(c), "a NULL table" if ma == 0 else "the allocation %s..." % (ma[:3],),
+                                "no call before" if prev is None else "a NULL table" if prev == 0 else "the allocation %s..." % (prev[:3],),
+                                "MA[%d] = %d" % (mai, want) if ma != 0 else "MAI %d" % mai, sel(got, ma)))
+                        prev = ma
+    except Skip as e:
+        note["status"] = "skipped, outside the checker's arithmetic: %s" % str(e)[:160]
+        # (a counterexample found before the fold left the arithmetic is still a counterexample)
+    kept = ", ".join(sorted({gen.root(k) for k in gen.state}))
+    for what in sorted(results):
+        k, bad = results[what]
+        total += k
+        if not k:
+            continue
+        L.ob("C07.R10", F_RFCH, gen.HOP,
+             "%s() keeps `%s` between calls: called again with %s it selects MA[MAI] of TS 45.002 6.2.3 for the inputs of each call "
+             "(call sequences a, a, b, b, a from the static initialiser folded on the forward-substituted terms, the state "
+             "carried from call to call)" % (gen.HOP, kept, what),
+             "MA[MAI] of each call's own inputs", "equal for all %d calls" % k if not bad else
+             "%s; differs for %s%d of %d calls" % (bad[0], "at least " if len(bad) >= 50 else "", len(bad), k), not bad, tu.line(gen.f))
+    note.setdefault("status", "complete")
+    note["calls_folded"] = total
+    note["state"] = list(gen.state)
+    if note["status"] == "complete":
+        L.floor("C07.R10", "calls of the generator folded in sequences with the state carried", total, 2000)
+
+
 def run(L, tier):
     spec = load_spec()
     repo = Repo(L.repo)
@@ -2999,7 +3703,8 @@ def run(L, tier):
     # its result still run and a violation recognised by any of them is reported
     L.stage(r7_witnesses, L, repo, spec)
     py = L.stage(PySide, L, repo)
-    cs = L.stage(CSide, L)
+    gen = L.stage(CGen, L)
+    cs = L.stage(CSide, L, gen)
     ptab = L.stage(r1_py_table, L, repo, py, spec)
     ctab = L.stage(r1_c_table, L, cs, spec)
     L.stage(r1_same_table, L, py, ptab, ctab)
@@ -3020,4 +3725,5 @@ def run(L, tier):
     L.stage(r6_getters, L, repo)
     L.stage(r6_c_use, L, cs, spec["RNTABLE"])
     L.stage(r9_c_carriage, L, cs)
+    L.stage(r10_c_sequences, L, gen, spec)
     L.stage(r8_descriptor_writers, L, tier)
